@@ -540,3 +540,120 @@ func VerifHarness_C01_O4() {
 	}
 	verifReach("end")
 }
+
+// O2c: coin rounds.  Four validators, rounds 0..5, one witness
+// per validator and round; the witnesses of rounds 2..5 strongly see all of the
+// previous round's witnesses but one (which one rotates; two rotation families
+// are shape cases) so that 2-2 splits can survive until the coin round
+// (round 4 = 0 + COIN_ROUND_FREQ).  First-round votes are symbolic, the middle
+// bit of each coin-round witness's hash is a shape case.  The fame DecideFame
+// assigns to x must equal an independent reference simulation of the
+// documented algorithm (normal rounds decide with a supermajority, coin rounds
+// never decide and flip to the middle bit without one).
+func VerifHarness_C01_O2c() {
+	n := 4
+	vn := verifNewNet(n, 100)
+	h := vn.h
+	sm := vn.set.SuperMajority()
+	verifAbstractEvent(vn, "x", 0, 5)
+	r0 := NewRoundInfo()
+	r0.AddCreatedEvent("x", true)
+	h.Store.SetRound(0, r0)
+	shift := 1 + verifChoice("rotation", 2)
+	votes := make([]bool, n)
+	names := make([][]string, 6)
+	names[1] = make([]string, n)
+	r1 := NewRoundInfo()
+	for i := 0; i < n; i++ {
+		names[1][i] = fmt.Sprintf("w1_%d", i)
+		w := verifAbstractEvent(vn, names[1][i], i, 8)
+		la := verifNondetInt(fmt.Sprintf("seeCoord%d", i))
+		w.lastAncestors[vn.hexes[0]] = EventCoordinates{Hash: "a", Index: la}
+		votes[i] = la >= 5
+		r1.AddCreatedEvent(names[1][i], true)
+	}
+	h.Store.SetRound(1, r1)
+	coinBit := make([]bool, n)
+	for j := 2; j <= 5; j++ {
+		names[j] = make([]string, n)
+		rj := NewRoundInfo()
+		for k := 0; k < n; k++ {
+			name := fmt.Sprintf("0X%02X%02X", j, k)
+			if j == 4 {
+				// middle byte of the decoded hash: zero => coin says false
+				coinBit[k] = verifChoice(fmt.Sprintf("middleBit%d", k), 2) == 1
+				if coinBit[k] {
+					name = fmt.Sprintf("0X%02XFF%02X", j, k)
+				} else {
+					name = fmt.Sprintf("0X%02X00%02X", j, k)
+				}
+			}
+			names[j][k] = name
+			verifAbstractEvent(vn, name, k, 10*j)
+			rj.AddCreatedEvent(name, true)
+			for i := 0; i < n; i++ {
+				h.stronglySeeCache.Add(treKey{name, names[j-1][i], vn.set.Hex()}, i != (k+shift)%n)
+			}
+		}
+		h.Store.SetRound(j, rj)
+	}
+	h.PendingRounds.Set(&PendingRound{Index: 0, Decided: false})
+	err := h.DecideFame()
+	verifAssert("no-error", err == nil)
+	// reference simulation
+	prev := votes
+	decided := false
+	decision := false
+	coinUsed := false
+	for j := 2; j <= 5 && !decided; j++ {
+		cur := make([]bool, n)
+		for k := 0; k < n; k++ {
+			yays, nays := 0, 0
+			for i := 0; i < n; i++ {
+				if i != (k+shift)%n {
+					if prev[i] {
+						yays++
+					} else {
+						nays++
+					}
+				}
+			}
+			v := yays >= nays
+			t := nays
+			if v {
+				t = yays
+			}
+			if j%4 != 0 {
+				cur[k] = v
+				if t >= sm && !decided {
+					decided = true
+					decision = v
+				}
+			} else {
+				if t >= sm {
+					cur[k] = v
+				} else {
+					cur[k] = coinBit[k]
+					coinUsed = true
+				}
+			}
+		}
+		prev = cur
+	}
+	if coinUsed {
+		verifReach("coin-flip-exercised")
+		if decided {
+			verifReach("decision-after-a-coin-round")
+		}
+	}
+	r0a, _ := h.Store.GetRound(0)
+	fx := r0a.CreatedEvents["x"].Famous
+	if !decided {
+		verifAssert("undecided-when-no-normal-round-reaches-a-supermajority", fx == common.Undefined)
+	} else if decision {
+		verifAssert("decided-famous-as-the-documented-algorithm", fx == common.True)
+	} else {
+		verifAssert("decided-not-famous-as-the-documented-algorithm", fx == common.False)
+	}
+	verifReach("end")
+}
